@@ -1,12 +1,31 @@
 -------------------------------- MODULE Pool --------------------------------
 (***************************************************************************)
-(* drpcpool.Pool (pool.go, entry.go) at the grain of one action per        *)
-(* critical section: Put, Take, Close (each entirely under p.mu) and the   *)
-(* expiry call-back of time.AfterFunc as three steps                       *)
+(* drpcpool.Pool (pool.go, entry.go): Put, Take, Close (each entirely      *)
+(* under p.mu) and the expiry call-back of time.AfterFunc as three steps   *)
 (*     TimerFire(e)    the timer fires, the call-back is about to Close    *)
 (*     ExpiryClose(e)  the call-back's val.Close()                         *)
 (*     ExpiryRemove(e) the call-back's p.removeEntry(ent) under p.mu       *)
 (* plus the environment: ConnClose(c), Block(c), Unblock(c).               *)
+(*                                                                         *)
+(* Two grains, selected by the constant Fine.  The pool calls user code    *)
+(* while it holds p.mu: Take calls ent.val.Unblocked() and, after unlink   *)
+(* and exp.Stop(), ent.val.Closed() for every entry it looks at; Put's     *)
+(* eviction loops and Pool.Close call ent.val.Close() (closeEntry, after   *)
+(* exp.Stop() succeeded or without a timer).  Each such call is a park     *)
+(* (op.pc = "unblocked" | "closed" | "evict" | "closing"): the code of an  *)
+(* operation is written once, as functions that run from one park to the   *)
+(* next (TakeScan/TakeUnblocked/TakeClosed, PutLoops/PutClose/PutAfter,    *)
+(* CloseScan/CloseAfter).  With Fine = FALSE an operation is one action    *)
+(* (Run iterates the parks to the end: one action per critical section);   *)
+(* with Fine = TRUE the operation stops at every park with the lock held   *)
+(* (variable op holds its local variables) and Return is the action        *)
+(* "the user code returns, the operation runs to its next park or to its   *)
+(* end".  While the lock is held a timer may fire and the call-back may    *)
+(* close its connection (neither needs the lock); ExpiryRemove - the first *)
+(* point at which the unchanged call-back needs p.mu - waits until the     *)
+(* lock is free, as do Put, Take, Close and (by assumption) the            *)
+(* environment.  What a user-code call returns is the state of the         *)
+(* connection when it returns.                                             *)
 (*                                                                         *)
 (* The two intrusive lists are modelled as the code has them: per entry    *)
 (* the four pointers global.next/prev (gn, gp) and local.next/prev (ln,    *)
@@ -50,7 +69,8 @@ CONSTANTS Keys,        \* set of keys (integers)
           Hist,        \* BOOLEAN: keep the history and emit it at terminal states
           FixUnlink,   \* BOOLEAN: variant of the code in which an entry is unlinked at most once (entry flag set by
                        \*          whoever unlinks it and by Pool.Close; the call-back's removeEntry returns if set)
-          FixOwnList   \* BOOLEAN: variant in which Put's global eviction does not delete the per-key list of the key being put
+          FixOwnList,  \* BOOLEAN: variant in which Put's global eviction does not delete the per-key list of the key being put
+          Fine         \* BOOLEAN: the user code called under p.mu is a park of its own (see above)
 
 Conns == 1..NConns
 Ents  == 1..MaxPuts
@@ -65,6 +85,7 @@ VARIABLES cf,                \* the Options of this pool: [cap, kcap, exp]
           ord,               \* p.order: [head, tail, count]
           lst,               \* p.entries: [Keys -> [in, head, tail, count]]
           cs,                \* per connection: [closed, blocked, calls, own]
+          op,                \* the operation that holds p.mu (Fine only; NoOp when the lock is free): its local variables
           gen,               \* number of Pool.Close calls
           puts, takes, envn, \* budgets used
           pn,                \* "" or the panic
@@ -72,8 +93,8 @@ VARIABLES cf,                \* the Options of this pool: [cap, kcap, exp]
           last,              \* label and result of the last action
           hist
 
-vars == <<cf, n, ekey, econn, egen, gn, gp, ln, lp, ul, ub, tm, ord, lst, cs, gen, puts, takes, envn, pn, route, anom, last, hist>>
-view == <<cf, n, ekey, econn, egen, gn, gp, ln, lp, ul, ub, tm, ord, lst, cs, gen, puts, takes, envn, pn, route, anom, last>>
+vars == <<cf, n, ekey, econn, egen, gn, gp, ln, lp, ul, ub, tm, ord, lst, cs, op, gen, puts, takes, envn, pn, route, anom, last, hist>>
+view == <<cf, n, ekey, econn, egen, gn, gp, ln, lp, ul, ub, tm, ord, lst, cs, op, gen, puts, takes, envn, pn, route, anom, last>>
 
 Capacity == cf.cap
 KeyCapacity == cf.kcap
@@ -82,6 +103,19 @@ Expire == cf.exp
 EmptyList  == [in |-> TRUE,  head |-> 0, tail |-> 0, count |-> 0]
 AbsentList == [in |-> FALSE, head |-> 0, tail |-> 0, count |-> 0]
 Fired(t) == t \in {"firedClosing", "firedRemoving"}
+
+\* the local variables of Put / Take / Close:
+\*   a    "Put" | "Take" | "PoolClose" ("" = nobody holds the lock)
+\*   k, c the arguments; e the id of the entry Put creates
+\*   cur  the loop variable ent: the entry whose user code runs at a park
+\*   pc   "" | "unblocked" (in ent.val.Unblocked()) | "closed" (in ent.val.Closed()) | "evict" (Put in ent.val.Close())
+\*        | "closing" (Pool.Close in ent.val.Close()) | "done"
+\*   ph   which eviction loop of Put: "key" | "cap"
+\*   fuel bound on the list walks (a cycle is reported as a panic of the model)
+\*   det, ol  Put's variable `local` points to a list that is no longer in p.entries (variant without FixOwnList)
+\*   ret  the result
+NoOp == [a |-> "", k |-> 0, c |-> 0, e |-> 0, cur |-> 0, pc |-> "", ph |-> "", fuel |-> 0, det |-> FALSE, ol |-> AbsentList, ret |-> 0]
+Free == op.a = ""
 
 (***************************************************************************)
 (* entry.go                                                                *)
@@ -114,7 +148,7 @@ Linked(L, nx, e) == \E i \in 1..Len(Walk(L, nx)) : Walk(L, nx)[i] = e
 (* the machine state threaded through the sequential code of one action    *)
 (***************************************************************************)
 Mk == [ord |-> ord, lk |-> lst, gn |-> gn, gp |-> gp, ln |-> ln, lp |-> lp, ul |-> ul, ub |-> ub, tm |-> tm, cs |-> cs,
-       det |-> FALSE, ol |-> AbsentList, pn |-> "", rt |-> route, an |-> anom]
+       op |-> op, pn |-> "", rt |-> route, an |-> anom]
 
 UnlinkGlobal(M, e) == LET r == RemoveL(M.ord, M.gn, M.gp, e)
                       IN [M EXCEPT !.ord = r.L, !.gn = r.nx, !.gp = r.pv]
@@ -129,83 +163,129 @@ Unlink(M, k, e) == LET M1 == UnlinkGlobal(UnlinkLocal(M, k, e), e)
 PoolCloses(M, c) == [M EXCEPT !.cs[c].closed = TRUE, !.cs[c].calls = @ + 1,
                               !.an = IF M.cs[c].own = "out" THEN @ \cup {"closedWhileOut"} ELSE @]
 
-\* Pool.closeEntry: close unless the timer can no longer be stopped
-CloseEntry(M, e) ==
-  IF M.tm[e] = "none" THEN PoolCloses(M, econn[e])
-  ELSE IF M.tm[e] = "armed" THEN PoolCloses([M EXCEPT !.tm[e] = "stopped"], econn[e])
-  ELSE M
+\* Pool.closeEntry up to the user code: `ent.exp == nil || ent.exp.Stop()` decides whether ent.val.Close() is called
+Stoppable(M, e) == M.tm[e] \in {"none", "armed"}
+StopTimer(M, e) == IF M.tm[e] = "armed" THEN [M EXCEPT !.tm[e] = "stopped"] ELSE M
 
 Mark(M, r) == [M EXCEPT !.rt = @ \cup {r}]
-Panic(M, s) == [M EXCEPT !.pn = s, !.an = @ \cup {"panic"}]
+Panic(M, s) == [M EXCEPT !.pn = s, !.an = @ \cup {"panic"}, !.op.pc = "done", !.op.ret = "panic"]
 
 (***************************************************************************)
-(* Put                                                                     *)
+(* Put, from the first eviction loop on (p.mu held)                        *)
 (***************************************************************************)
-RECURSIVE KeyLoop(_, _)
-KeyLoop(M, k) ==
-  IF M.pn # "" \/ KeyCapacity = 0 \/ M.lk[k].count < KeyCapacity THEN M
-  ELSE IF M.lk[k].head = 0 THEN Panic(M, "Put: nil entry in the per-key eviction")
-  ELSE LET e  == M.lk[k].head
-           M0 == IF Fired(M.tm[e]) THEN [M EXCEPT !.ub[e] = "Evict"] ELSE M
-           M1 == CloseEntry(M0, e)
-           M3 == Unlink(M1, k, e)
-       IN KeyLoop(M3, k)
+PutPanic(M, s) == [Panic(M, s) EXCEPT !.cs[M.op.c].own = "gone"]
 
-RECURSIVE CapLoop(_, _)
-CapLoop(M, k) ==
-  IF M.pn # "" \/ Capacity = 0 \/ M.ord.count < Capacity THEN M
-  ELSE IF M.ord.head = 0 THEN Panic(M, "Put: nil entry in the global eviction")
-  ELSE LET e  == M.ord.head
-           k2 == ekey[e]
-           isnil == IF k2 = k THEN M.det ELSE ~M.lk[k2].in    \* local := p.entries[ent.key]
-           M0 == IF Fired(M.tm[e]) THEN [M EXCEPT !.ub[e] = "Evict"] ELSE M
-           M1 == CloseEntry(M0, e)
-       IN IF isnil THEN Panic(M1, "Put: nil per-key list in the global eviction")
-          ELSE LET M3 == Unlink(M1, k2, e)
-                   M4 == IF M3.lk[k2].count # 0 THEN M3
-                         ELSE IF k2 = k     \* delete(p.entries, key) of the list Put itself still uses
-                              THEN IF FixOwnList THEN M3 ELSE
-                                   [M3 EXCEPT !.det = TRUE, !.ol = M3.lk[k], !.lk[k] = AbsentList]
-                              ELSE [M3 EXCEPT !.lk[k2] = AbsentList]
-               IN CapLoop(M4, k)
+\* both loops are through: the entry is created and appended, its timer started
+PutAppend(M) ==
+  LET k == M.op.k
+      e == M.op.e
+      g == AppendL(M.ord, M.gn, M.gp, e)
+      M1 == IF M.op.det
+            THEN LET r == AppendL(M.op.ol, M.ln, M.lp, e)
+                 IN Mark([M EXCEPT !.ln = r.nx, !.lp = r.pv, !.ord = g.L, !.gn = g.nx, !.gp = g.pv], "Orphan")
+            ELSE LET r == AppendL(M.lk[k], M.ln, M.lp, e)
+                 IN [M EXCEPT !.lk[k] = r.L, !.ln = r.nx, !.lp = r.pv, !.ord = g.L, !.gn = g.nx, !.gp = g.pv]
+  IN [M1 EXCEPT !.cs[M.op.c].own = "pool", !.tm[e] = IF Expire THEN "armed" ELSE "none", !.op.pc = "done", !.op.ret = "cached"]
 
-PutBody(k, c, e) ==
-  LET M0 == [Mk EXCEPT !.lk[k] = IF lst[k].in THEN lst[k] ELSE EmptyList]
-      M1 == CapLoop(KeyLoop(M0, k), k)
-  IN IF M1.pn # "" THEN M1
-     ELSE IF M1.det
-          THEN LET r == AppendL(M1.ol, M1.ln, M1.lp, e)
-                   g == AppendL(M1.ord, M1.gn, M1.gp, e)
-               IN Mark([M1 EXCEPT !.ln = r.nx, !.lp = r.pv, !.ord = g.L, !.gn = g.nx, !.gp = g.pv], "Orphan")
-          ELSE LET r == AppendL(M1.lk[k], M1.ln, M1.lp, e)
-                   g == AppendL(M1.ord, M1.gn, M1.gp, e)
-               IN [M1 EXCEPT !.lk[k] = r.L, !.ln = r.nx, !.lp = r.pv, !.ord = g.L, !.gn = g.nx, !.gp = g.pv]
+RECURSIVE PutLoops(_), PutClose(_, _), PutAfter(_)
+\* the head of the eviction loop op.ph
+PutLoops(M) ==
+  LET k == M.op.k IN
+  IF M.op.ph = "key"
+  THEN IF KeyCapacity = 0 \/ M.lk[k].count < KeyCapacity THEN PutLoops([M EXCEPT !.op.ph = "cap"])
+       ELSE IF M.lk[k].head = 0 THEN PutPanic(M, "Put: nil entry in the per-key eviction")
+       ELSE PutClose(M, M.lk[k].head)
+  ELSE IF Capacity = 0 \/ M.ord.count < Capacity THEN PutAppend(M)
+       ELSE IF M.ord.head = 0 THEN PutPanic(M, "Put: nil entry in the global eviction")
+       ELSE PutClose(M, M.ord.head)
 
-(***************************************************************************)
-(* Take                                                                    *)
-(***************************************************************************)
-RECURSIVE TakeLoop(_, _, _, _)
-TakeLoop(M, k, e, fuel) ==
-  IF e = 0 THEN [M |-> M, ret |-> 0]
-  ELSE IF fuel = 0 THEN [M |-> Panic(M, "Take: endless loop"), ret |-> 0]
-  ELSE IF M.cs[econn[e]].blocked THEN TakeLoop(M, k, M.ln[e], fuel - 1)
-  ELSE LET M0 == IF Fired(M.tm[e]) THEN [M EXCEPT !.ub[e] = "Take"] ELSE M
-           M2 == Unlink(M0, k, e)
-           stop == M2.tm[e] = "armed"
-           M3 == IF stop THEN [M2 EXCEPT !.tm[e] = "stopped"] ELSE M2
-       IN IF M.tm[e] # "none" /\ ~stop THEN TakeLoop(M3, k, M3.ln[e], fuel - 1)
-          ELSE IF M3.cs[econn[e]].closed THEN TakeLoop(M3, k, M3.ln[e], fuel - 1)
-          ELSE [M |-> M3, ret |-> econn[e]]
+\* p.closeEntry(ent): park in ent.val.Close() unless the timer can no longer be stopped
+PutClose(M, e) ==
+  LET M0 == [M EXCEPT !.op.cur = e, !.ub[e] = IF Fired(M.tm[e]) THEN "Evict" ELSE @]
+  IN IF Stoppable(M0, e) THEN [StopTimer(M0, e) EXCEPT !.op.pc = "evict"]
+     ELSE PutAfter(M0)
+
+\* closeEntry has returned: unlink (and, in the global loop, drop an empty per-key list)
+PutAfter(M) ==
+  LET k == M.op.k
+      e == M.op.cur
+  IN IF M.op.ph = "key" THEN PutLoops(Unlink(M, k, e))
+     ELSE LET k2 == ekey[e]
+              isnil == IF k2 = k THEN M.op.det ELSE ~M.lk[k2].in    \* local := p.entries[ent.key]
+          IN IF isnil THEN PutPanic(M, "Put: nil per-key list in the global eviction")
+             ELSE LET M3 == Unlink(M, k2, e)
+                      M4 == IF M3.lk[k2].count # 0 THEN M3
+                            ELSE IF k2 = k     \* delete(p.entries, key) of the list Put itself still uses
+                                 THEN IF FixOwnList THEN M3 ELSE
+                                      [M3 EXCEPT !.op.det = TRUE, !.op.ol = M3.lk[k], !.lk[k] = AbsentList]
+                                 ELSE [M3 EXCEPT !.lk[k2] = AbsentList]
+                  IN PutLoops(M4)
 
 (***************************************************************************)
-(* Close                                                                   *)
+(* Take, from the loop over the per-key list on (p.mu held)                *)
 (***************************************************************************)
-RECURSIVE CloseWalk(_, _, _)
-CloseWalk(M, e, fuel) ==
-  IF e = 0 THEN M
-  ELSE IF fuel = 0 THEN Panic(M, "Close: endless loop")
-  ELSE LET M1 == CloseEntry(M, e)
-       IN CloseWalk(IF FixUnlink THEN [M1 EXCEPT !.ul[e] = TRUE] ELSE M1, M.gn[e], fuel - 1)
+\* loop head: ent # nil, then park in ent.val.Unblocked()
+TakeScan(M) ==
+  IF M.op.cur = 0 THEN [M EXCEPT !.op.pc = "done", !.op.ret = 0]
+  ELSE IF M.op.fuel = 0 THEN Panic(M, "Take: endless loop")
+  ELSE [M EXCEPT !.op.pc = "unblocked", !.op.fuel = @ - 1]
+
+\* continue: ent = ent.local.next (the pointer of the possibly unlinked entry, read now)
+TakeNext(M) == TakeScan([M EXCEPT !.op.cur = M.ln[M.op.cur]])
+
+\* ent.val.Unblocked() has returned: skip a blocked one, else unlink, stop the timer, park in ent.val.Closed()
+TakeUnblocked(M) ==
+  LET k == M.op.k
+      e == M.op.cur
+  IN IF M.cs[econn[e]].blocked THEN TakeNext(M)
+     ELSE LET M0 == IF Fired(M.tm[e]) THEN [M EXCEPT !.ub[e] = "Take"] ELSE M
+              M2 == Unlink(M0, k, e)
+              stop == M2.tm[e] = "armed"
+              M3 == IF stop THEN [M2 EXCEPT !.tm[e] = "stopped"] ELSE M2
+          IN IF M.tm[e] # "none" /\ ~stop THEN TakeNext(M3)
+             ELSE [M3 EXCEPT !.op.pc = "closed"]
+
+\* ent.val.Closed() has returned
+TakeClosed(M) ==
+  LET c == econn[M.op.cur]
+  IN IF M.cs[c].closed THEN TakeNext(M)
+     ELSE [M EXCEPT !.op.pc = "done", !.op.ret = c, !.cs[c].own = "out",
+                    !.an = IF M.cs[c].own # "pool" THEN @ \cup {"handedOutTwice"} ELSE @]
+
+(***************************************************************************)
+(* Close, from the loop over p.order on (p.mu held)                        *)
+(***************************************************************************)
+RECURSIVE CloseScan(_), CloseAfter(_)
+CloseScan(M) ==
+  LET e == M.op.cur
+      reset == [M EXCEPT !.lk = [k \in Keys |-> AbsentList], !.ord = [head |-> 0, tail |-> 0, count |-> 0]]
+  IN IF e = 0 THEN [reset EXCEPT !.op.pc = "done", !.op.ret = 0]
+     ELSE IF M.op.fuel = 0 THEN Panic(reset, "Close: endless loop")
+     ELSE IF Stoppable(M, e) THEN [StopTimer(M, e) EXCEPT !.op.pc = "closing", !.op.fuel = @ - 1]
+     ELSE CloseAfter([M EXCEPT !.op.fuel = @ - 1])
+
+\* closeEntry has returned: ent.gone = true; ent = ent.global.next
+CloseAfter(M) ==
+  LET e == M.op.cur
+      M1 == IF FixUnlink THEN [M EXCEPT !.ul[e] = TRUE] ELSE M
+  IN CloseScan([M1 EXCEPT !.op.cur = M.gn[e]])
+
+(***************************************************************************)
+(* the two grains                                                          *)
+(***************************************************************************)
+\* the user code at which the operation is parked returns; the operation runs to its next park or to its end
+Resume(M) ==
+  LET c == econn[M.op.cur] IN
+  CASE M.op.pc = "unblocked" -> TakeUnblocked(M)
+    [] M.op.pc = "closed"    -> TakeClosed(M)
+    [] M.op.pc = "evict"     -> PutAfter(PoolCloses(M, c))
+    [] M.op.pc = "closing"   -> CloseAfter(PoolCloses(M, c))
+
+RECURSIVE Run(_)
+Run(M) == IF M.op.pc = "done" THEN M ELSE Run(Resume(M))
+
+\* Fine: stop at the first park; otherwise the critical section is one action
+Go(M) == IF Fine THEN M ELSE Run(M)
 
 (***************************************************************************)
 (* the property, evaluated on a machine state                              *)
@@ -221,9 +301,13 @@ Bounds(M) ==
 
 Pending == \E e \in 1..n : tm[e] \in {"armed", "firedClosing", "firedRemoving"}
 
+PcName(pc) == CASE pc = "unblocked" -> "Unblocked" [] pc = "closed" -> "Closed" [] pc = "evict" -> "Close" [] pc = "closing" -> "Close" [] OTHER -> ""
+
+\* M.op is what the operation holding the lock looks like after the step (NoOp if none)
 Install(M, lbl) ==
   /\ ord' = M.ord /\ lst' = M.lk /\ gn' = M.gn /\ gp' = M.gp /\ ln' = M.ln /\ lp' = M.lp
   /\ ul' = M.ul /\ ub' = M.ub /\ tm' = M.tm /\ cs' = M.cs /\ pn' = M.pn /\ route' = M.rt
+  /\ op' = M.op
   /\ anom' = M.an \cup Bounds(M)
   /\ last' = lbl
   /\ hist' = IF Hist
@@ -233,10 +317,20 @@ Install(M, lbl) ==
                                  [k \in Keys |-> M.lk[k].count],
                                  [k \in Keys |-> IF M.lk[k].in THEN WLen(M.lk[k], M.ln) ELSE 0],
                                  [c \in Conns |-> M.cs[c].calls],
-                                 M.tm, M.pn, M.rt, M.an \cup Bounds(M)>>)
+                                 M.tm, M.pn, M.rt, M.an \cup Bounds(M),
+                                 \* the operation holding p.mu after the step, the user code it is in, and on which connection
+                                 IF M.op.a = "" THEN <<"", "", 0>> ELSE <<M.op.a, PcName(M.op.pc), econn[M.op.cur]>> >>)
              ELSE hist
 
-Lbl(a, k, c, e, r) == [a |-> a, k |-> k, c |-> c, e |-> e, r |-> r]
+\* fin: the operation that this step completes ("" if none)
+Lbl(a, k, c, e, r) == [a |-> a, k |-> k, c |-> c, e |-> e, r |-> r, fin |-> ""]
+
+\* the step of an operation ends at a park (the lock stays held) or at the end of the operation
+Complete(M, lbl) ==
+  LET done == M.op.pc = "done"
+  IN /\ gen' = IF done /\ M.op.a = "PoolClose" THEN gen + 1 ELSE gen
+     /\ Install([M EXCEPT !.op = IF done THEN NoOp ELSE @],
+                [lbl EXCEPT !.r = IF done THEN M.op.ret ELSE "parked", !.fin = IF done THEN M.op.a ELSE ""])
 
 Live == pn = ""
 MaxGen == IF AfterClose THEN 2 ELSE 1
@@ -250,61 +344,61 @@ Puttable(c) == \/ cs[c].own = "out"
 FirstKey(k) == (puts = 0 /\ takes = 0) => \A j \in Keys : k <= j
 
 Put(k, c) ==
-  /\ Live /\ Open /\ puts < MaxPuts /\ Puttable(c) /\ FirstKey(k)
+  /\ Live /\ Open /\ Free /\ puts < MaxPuts /\ Puttable(c) /\ FirstKey(k)
   /\ puts' = puts + 1
-  /\ UNCHANGED <<gen, takes, envn>>
+  /\ UNCHANGED <<takes, envn>>
   /\ IF Capacity < 0 \/ KeyCapacity < 0
-       THEN /\ Install([PoolCloses(Mk, c) EXCEPT !.cs[c].own = "gone"], Lbl("Put", k, c, 0, "closed"))
-            /\ UNCHANGED <<n, ekey, econn, egen>>
+       THEN /\ Install([PoolCloses(Mk, c) EXCEPT !.cs[c].own = "gone"], [Lbl("Put", k, c, 0, "closed") EXCEPT !.fin = "Put"])
+            /\ UNCHANGED <<n, ekey, econn, egen, gen>>
      ELSE IF cs[c].closed
-       THEN /\ Install([Mk EXCEPT !.cs[c].own = "gone"], Lbl("Put", k, c, 0, "dropped"))
-            /\ UNCHANGED <<n, ekey, econn, egen>>
-     ELSE LET e == n + 1
-              M == PutBody(k, c, e)
+       THEN /\ Install([Mk EXCEPT !.cs[c].own = "gone"], [Lbl("Put", k, c, 0, "dropped") EXCEPT !.fin = "Put"])
+            /\ UNCHANGED <<n, ekey, econn, egen, gen>>
+     ELSE LET e == n + 1     \* p.mu.Lock(); local := p.entries[key], created and registered if nil
+              M == [Mk EXCEPT !.lk[k] = IF lst[k].in THEN lst[k] ELSE EmptyList,
+                              !.op = [NoOp EXCEPT !.a = "Put", !.k = k, !.c = c, !.e = e, !.ph = "key"]]
           IN /\ n' = e
              /\ ekey' = [ekey EXCEPT ![e] = k] /\ econn' = [econn EXCEPT ![e] = c] /\ egen' = [egen EXCEPT ![e] = gen]
-             /\ IF M.pn # ""
-                  THEN Install([M EXCEPT !.cs[c].own = "gone"], Lbl("Put", k, c, e, "panic"))
-                  ELSE Install([M EXCEPT !.cs[c].own = "pool", !.tm[e] = IF Expire THEN "armed" ELSE "none"],
-                               Lbl("Put", k, c, e, "cached"))
+             /\ Complete(Go(PutLoops(M)), Lbl("Put", k, c, e, 0))
 
 Take(k) ==
-  /\ Live /\ Open /\ takes < MaxTakes /\ FirstKey(k)
+  /\ Live /\ Open /\ Free /\ takes < MaxTakes /\ FirstKey(k)
   /\ takes' = takes + 1
-  /\ UNCHANGED <<n, ekey, econn, egen, gen, puts, envn>>
-  /\ IF ~lst[k].in THEN Install(Mk, Lbl("Take", k, 0, 0, 0))
-     ELSE LET t == TakeLoop(Mk, k, lst[k].head, MaxPuts + 1)
-              c == t.ret
-          IN IF c = 0 THEN Install(t.M, Lbl("Take", k, 0, 0, 0))
-             ELSE Install([t.M EXCEPT !.cs[c].own = "out",
-                                      !.an = IF t.M.cs[c].own # "pool" THEN @ \cup {"handedOutTwice"} ELSE @],
-                          Lbl("Take", k, c, 0, c))
+  /\ UNCHANGED <<n, ekey, econn, egen, puts, envn>>
+  /\ IF ~lst[k].in THEN UNCHANGED gen /\ Install(Mk, [Lbl("Take", k, 0, 0, 0) EXCEPT !.fin = "Take"])
+     ELSE LET M == Go(TakeScan([Mk EXCEPT !.op = [NoOp EXCEPT !.a = "Take", !.k = k, !.cur = lst[k].head, !.fuel = MaxPuts + 1]]))
+          IN Complete(M, Lbl("Take", k, IF M.op.pc = "done" /\ M.pn = "" THEN M.op.ret ELSE 0, 0, 0))
 
 PoolClose ==
-  /\ Live /\ gen < MaxGen
-  /\ gen' = gen + 1
+  /\ Live /\ Free /\ gen < MaxGen
   /\ UNCHANGED <<n, ekey, econn, egen, puts, takes, envn>>
-  /\ LET M == CloseWalk(Mk, ord.head, MaxPuts + 1)
-     IN Install([M EXCEPT !.lk = [k \in Keys |-> AbsentList], !.ord = [head |-> 0, tail |-> 0, count |-> 0]],
-                Lbl("PoolClose", 0, 0, 0, 0))
+  /\ LET M == Go(CloseScan([Mk EXCEPT !.op = [NoOp EXCEPT !.a = "PoolClose", !.cur = ord.head, !.fuel = MaxPuts + 1]]))
+     IN Complete(M, Lbl("PoolClose", 0, 0, 0, 0))
+
+\* Fine: the user code the operation is parked in returns
+Return ==
+  /\ Live /\ ~Free
+  /\ UNCHANGED <<n, ekey, econn, egen, puts, takes, envn>>
+  /\ Complete(Resume(Mk), Lbl("Return", op.k, econn[op.cur], op.cur, 0))
 
 \* after the last Pool.Close nothing but the call-backs runs, and they no longer interact
 \* (p.entries stays empty): only the oldest unfinished one steps
 Turn(e) == gen = MaxGen => \A f \in 1..(e - 1) : tm[f] \notin {"armed", "firedClosing", "firedRemoving"}
 
-\* all timers share one duration: they fire in put order
+\* all timers share one duration: they fire in put order.  A timer does not wait for p.mu.
 TimerFire(e) ==
   /\ Live /\ e <= n /\ tm[e] = "armed" /\ \A f \in 1..(e - 1) : tm[f] # "armed" /\ Turn(e)
   /\ UNCHANGED <<n, ekey, econn, egen, gen, puts, takes, envn>>
   /\ Install([Mk EXCEPT !.tm[e] = "firedClosing"], Lbl("TimerFire", 0, econn[e], e, 0))
 
+\* nor does the call-back's val.Close()
 ExpiryClose(e) ==
   /\ Live /\ e <= n /\ tm[e] = "firedClosing" /\ Turn(e)
   /\ UNCHANGED <<n, ekey, econn, egen, gen, puts, takes, envn>>
   /\ Install([PoolCloses(Mk, econn[e]) EXCEPT !.tm[e] = "firedRemoving"], Lbl("ExpiryClose", 0, econn[e], e, 0))
 
+\* removeEntry takes p.mu: it waits while an operation holds it
 ExpiryRemove(e) ==
-  /\ Live /\ e <= n /\ tm[e] = "firedRemoving" /\ Turn(e)
+  /\ Live /\ Free /\ e <= n /\ tm[e] = "firedRemoving" /\ Turn(e)
   /\ UNCHANGED <<n, ekey, econn, egen, gen, puts, takes, envn>>
   /\ LET k == ekey[e]
          M0 == [Mk EXCEPT !.tm[e] = "done"]
@@ -318,8 +412,8 @@ ExpiryRemove(e) ==
                  M3 == IF M2.lk[k].count = 0 THEN [M2 EXCEPT !.lk[k] = AbsentList] ELSE M2
              IN Install(M3, Lbl("ExpiryRemove", k, econn[e], e, "removed"))
 
-\* environment
-EnvOK(c) == Live /\ Open /\ envn < MaxEnv /\ (cs[c].own = "pool" \/ Puttable(c))
+\* environment (between the pool's critical sections)
+EnvOK(c) == Live /\ Open /\ Free /\ envn < MaxEnv /\ (cs[c].own = "pool" \/ Puttable(c))
 Env(c, a, f) ==
   /\ EnvOK(c)
   /\ envn' = envn + 1
@@ -338,6 +432,7 @@ Init ==
   /\ ord = [head |-> 0, tail |-> 0, count |-> 0]
   /\ lst = [k \in Keys |-> AbsentList]
   /\ cs = [c \in Conns |-> [closed |-> FALSE, blocked |-> FALSE, calls |-> 0, own |-> "fresh"]]
+  /\ op = NoOp
   /\ gen = 0 /\ puts = 0 /\ takes = 0 /\ envn = 0
   /\ pn = "" /\ route = {} /\ anom = {}
   /\ last = Lbl("Init", 0, 0, 0, 0)
@@ -347,6 +442,7 @@ Next ==
   \/ \E k \in Keys, c \in Conns : Put(k, c)
   \/ \E k \in Keys : Take(k)
   \/ PoolClose
+  \/ Return
   \/ \E e \in Ents : TimerFire(e) \/ ExpiryClose(e) \/ ExpiryRemove(e)
   \/ \E c \in Conns : ConnClose(c) \/ Block(c) \/ Unblock(c)
 
@@ -360,6 +456,11 @@ TypeOK ==
   /\ \A e \in Ents : gn[e] \in 0..MaxPuts /\ gp[e] \in 0..MaxPuts /\ ln[e] \in 0..MaxPuts /\ lp[e] \in 0..MaxPuts
   /\ \A e \in Ents : tm[e] \in {"none", "armed", "firedClosing", "firedRemoving", "stopped", "done"}
   /\ \A c \in Conns : cs[c].own \in {"fresh", "pool", "out", "gone"}
+  /\ op.a \in {"", "Put", "Take", "PoolClose"}
+  /\ (Free \/ ~Live) => op = NoOp
+  /\ ~Fine => Free
+  /\ ~Free => /\ op.cur \in 1..n
+              /\ op.pc \in (CASE op.a = "Put" -> {"evict"} [] op.a = "Take" -> {"unblocked", "closed"} [] OTHER -> {"closing"})
 
 Terminal == ~Live \/ (gen = MaxGen /\ ~Pending)
 
@@ -367,10 +468,10 @@ Terminal == ~Live \/ (gen = MaxGen /\ ~Pending)
 Leaked == {c \in Conns : cs[c].own = "pool" /\ ~cs[c].closed}
 FinalAnom == IF Live /\ gen = MaxGen /\ ~Pending /\ Leaked # {} THEN {"neitherHandedOutNorClosed"} ELSE {}
 
-\* the lists are consistent as long as none of the recorded routes was taken
+\* the lists are consistent as long as none of the recorded routes was taken (between critical sections)
 WSet(L, nx) == LET w == Walk(L, nx) IN {w[i] : i \in 1..Len(w)}
 Consistent ==
-  route = {} =>
+  (route = {} /\ Free) =>
     LET go == WSet(ord, gn)
         lo == [k \in Keys |-> IF lst[k].in THEN WSet(lst[k], ln) ELSE {}]
     IN /\ ord.count = Cardinality(go) /\ -1 \notin go
@@ -383,26 +484,34 @@ Consistent ==
        /\ \A c \in Conns : (cs[c].own = "pool" /\ ~cs[c].closed /\ gen = 0) =>
               \E e \in 1..n : econn[e] = c /\ (e \in go \/ Fired(tm[e]))
 
+\* inside a critical section (Fine): what the operation is about to hand to user code is what the code has there
+Parked ==
+  ~Free =>
+    /\ op.pc = "unblocked" => (route = {} => Linked(lst[op.k], ln, op.cur))
+    /\ op.pc \in {"closed", "evict", "closing"} => tm[op.cur] \in {"none", "stopped"}     \* nobody else will close it
+    /\ op.pc \in {"evict", "closing"} => (route = {} => Linked(ord, gn, op.cur))
+
 \* the property holds unless one of the recorded routes was taken
 Safe == (anom \cup FinalAnom) # {} => route # {}
 
 \* with both repairs no route exists, so Safe says the property holds outright
 FixedClean == (FixUnlink /\ FixOwnList) => route = {}
 
-\* what Take hands out is open, unblocked and not chosen for expiry (by construction of TakeLoop; kept as a check of the model)
-TakeOK == (last.a = "Take" /\ last.r # 0) => /\ ~cs[last.r].closed /\ ~cs[last.r].blocked
+\* what Take hands out is open, unblocked and not chosen for expiry (by construction of TakeClosed; kept as a check of the model)
+TakeOK == (Live /\ last.fin = "Take" /\ last.r # 0) => /\ ~cs[last.r].closed /\ ~cs[last.r].blocked
+                                               /\ \A e \in 1..n : econn[e] = last.r => ~Fired(tm[e])
 
 \* the forward walks of Take and Close terminate (no cycle is ever built), so a replay cannot hang in them
 NoEndlessLoop == pn \notin {"Take: endless loop", "Close: endless loop"}
 
 EmitTerminal == (Hist /\ Terminal) =>
-  PrintT("@@" \o ToJson([cap |-> Capacity, kcap |-> KeyCapacity, exp |-> Expire, steps |-> hist,
+  PrintT("@@" \o ToJson([cap |-> Capacity, kcap |-> KeyCapacity, exp |-> Expire, fine |-> Fine, steps |-> hist,
                          term |-> TRUE, final |-> FinalAnom, leaked |-> Leaked]))
 
 \* ACTION_CONSTRAINT: emit every transition TLC generates (also those into states already seen), as the
 \* behaviour consisting of the history of its source state (with VIEW view: a shortest one) and the step
 EmitEdge == Hist =>
-  PrintT("@@" \o ToJson([cap |-> Capacity, kcap |-> KeyCapacity, exp |-> Expire, steps |-> hist',
+  PrintT("@@" \o ToJson([cap |-> Capacity, kcap |-> KeyCapacity, exp |-> Expire, fine |-> Fine, steps |-> hist',
                          term |-> Terminal', final |-> FinalAnom', leaked |-> Leaked']))
 
 \* scenario queries (TLC is asked to violate them)
